@@ -7,6 +7,11 @@ Requests (one line each):
         by random.Random(N); config keys/lists and seeds re-cased: C2, seeds2; file names unchanged)
     (dup (proj P) (seeds ..) (kernel "k") (suffix "s") (msuffix "m") (abs A))
         Scheduler.process(DuplicateKernel([k], s, m or None), PLAN): the item names it adds to the cache
+    (fargs (strict B) (fullparse B) (seeds ..) (routines (r "name" "File.F90" (c "callee") (d "DEF" "callee") (n "DEF" "callee")..)..)
+           (keys (k dir|DIR|rel "rest" "DEF"..)..))
+        free routines, one per file, with calls inside #ifdef (d) / #ifndef (n); SchedulerConfig.frontend_args entries
+        {key: {preprocess: True, defines: [...]}} whose keys are the project directory as spelled (dir) or upper-cased
+        (DIR) + "/" + rest, or relative (rel): file names, sub-paths, suffixes, patterns, in assorted letter case
     (item "a" "b")
         two real ProcedureItem objects: ==, hash equality, len({a, b}), a in {b}, a in [b]
 
@@ -204,7 +209,142 @@ def real_dup_req(req):
                     str(field(req, 'suffix')[1]), str(field(req, 'msuffix')[1]))
 
 
-REAL = {'twin': real_twin, 'dup': real_dup_req}
+# ------------------------------------------------------------------ frontend_args (per-file options keyed by path patterns)
+
+_FA_DIRS = {}
+
+
+def fa_project_dir(routines):
+    """<mkdtemp>/Proj_X with one free routine per file; guarded calls inside #ifdef / #ifndef"""
+    import atexit
+    import shutil
+    import tempfile
+    key = dumps(routines)
+    if key not in _FA_DIRS:
+        root = Path(tempfile.mkdtemp(prefix='c21_fa_'))
+        atexit.register(shutil.rmtree, root, ignore_errors=True)
+        d = root / 'Proj_X'
+        d.mkdir()
+        for r in routines[1:]:
+            name, fname = str(r[1]), str(r[2])
+            lines = [f'subroutine {name}(x)', '  implicit none', '  real :: x']
+            for c in r[3:]:
+                k = head(c)
+                if k == 'c':
+                    lines.append(f'  call {c[1]}(x)')
+                else:
+                    lines += [f'#{"ifdef" if k == "d" else "ifndef"} {c[1]}', f'  call {c[2]}(x)', '#endif']
+            lines.append(f'end subroutine {name}')
+            (d / fname).write_text('\n'.join(lines) + '\n')
+        _FA_DIRS[key] = d
+    return _FA_DIRS[key]
+
+
+def fa_keys(req, d, lowered=False):
+    """[(key string, defines)] for the real directory ``d``"""
+    out = []
+    for k in field(req, 'keys')[1:]:
+        kind, rest, defs = str(k[1]), str(k[2]), [str(x) for x in k[3:]]
+        pre = str(d) + '/' if kind == 'dir' else str(d).upper() + '/' if kind == 'DIR' else ''
+        key = pre + rest
+        out.append((key.lower() if lowered else key, defs))
+    return out
+
+
+def real_fargs(req, lowered=False):
+    routines = field(req, 'routines')
+    d = fa_project_dir(routines)
+    cfg = {'default': {'role': 'kernel', 'expand': True, 'strict': a2b(field(req, 'strict')[1])}, 'routines': {},
+           'frontend_args': {k: {'preprocess': True, 'defines': list(ds)} for k, ds in fa_keys(req, d, lowered)}}
+    try:
+        sch = Scheduler(paths=[d], config=cfg, seed_routines=[str(s) for s in field(req, 'seeds')[1:]],
+                        full_parse=a2b(field(req, 'fullparse')[1]), frontend=FP)
+    except Exception as e:  # pylint: disable=broad-except
+        return ['error', errkind(e)]
+    return ['ok', [[i.name, kind_of(i)] for i in sch.items], [[a.name, b.name] for a, b in sch.dependencies]]
+
+
+def fa_reference(req):
+    """expected graph by the documented rule: the first entry whose key (absolute path, or a pattern matched against the
+    end of the path) matches the file case-insensitively supplies preprocess/defines"""
+    import fnmatch
+    fake = '/t/Proj_X'
+    routines = {str(r[1]).lower(): r for r in field(req, 'routines')[1:]}
+    keys = fa_keys(req, fake)
+    deps = {}
+    for n, r in routines.items():
+        path = f'{fake}/{r[2]}'.lower()
+        opts = None
+        for k, ds in keys:
+            pat = (k if k.startswith('/') else '*' + k).lower()
+            if fnmatch.fnmatchcase(path, pat):
+                opts = ds
+                break
+        act = []
+        for c in r[3:]:
+            k = head(c)
+            if k == 'c' or opts is None or (k == 'd' and str(c[1]) in opts) or (k == 'n' and str(c[1]) not in opts):
+                act.append(str(c[-1]).lower())
+        deps[n] = list(dict.fromkeys(act))
+    nodes, edges, todo = [], [], []
+    for s in field(req, 'seeds')[1:]:
+        s = str(s).lower()
+        if s in routines and s not in nodes:
+            nodes.append(s)
+            todo.append(s)
+    while todo:
+        a = todo.pop(0)
+        for b in deps[a]:
+            if b != a:
+                edges.append((a, b))
+            if b not in nodes:
+                nodes.append(b)
+                todo.append(b)
+    return {'#' + n for n in nodes}, {('#' + a, '#' + b) for a, b in edges}
+
+
+def gen_fargs(rng):
+    n = rng.randint(3, 6)
+    stems = []
+    while len(stems) < n:
+        s = rng.choice(c21._SYL) + rng.choice(c21._SYL) + rng.choice(['', '1', '_k'])
+        if s not in stems:
+            stems.append(s)
+    files = [recase_str(rng, s) + rng.choice(['.F90', '.F90', '.f90', '.F']) for s in stems]
+    defs = ['DEF_A', 'DEF_B']
+    routines = [A('routines')]
+    for i, s in enumerate(stems):
+        calls = []
+        for t in rng.sample(stems[i + 1:], min(len(stems) - i - 1, rng.choice([1, 1, 2, 3]))):
+            r = rng.random()
+            tn = recase_str(rng, t)
+            calls.append([A('c'), tn] if r < 0.4 else [A('d' if r < 0.7 else 'n'), rng.choice(defs), tn])
+        routines.append([A('r'), recase_str(rng, s), files[i]] + calls)
+    keys = [A('keys')]
+    for _ in range(rng.choice([1, 1, 2, 3])):
+        i = rng.randrange(n)
+        f = files[i]
+        q = rng.random()
+        if q < 0.45:
+            k = [A(rng.choice(['dir', 'dir', 'DIR'])), rng.choice([f, f, recase_str(rng, f), f.lower(), f.upper()])]
+        elif q < 0.7:
+            k = [A('rel'), rng.choice([f, recase_str(rng, f), 'Proj_X/' + f, 'PROJ_x/' + recase_str(rng, f)])]
+        elif q < 0.8:
+            k = [A('rel'), rng.choice(['.F90', '.f90', '.F'])]
+        elif q < 0.9:
+            k = [A(rng.choice(['dir', 'rel'])), recase_str(rng, stems[i][:3]) + '*']
+        else:
+            k = [A('dir'), 'no_such_file.F90']
+        # no two keys equal up to case: they would be one dict key in the lower-cased comparison config
+        low = ('' if str(k[0]) == 'rel' else '<dir>/') + k[1].lower()
+        if any(low == ('' if str(e[1]) == 'rel' else '<dir>/') + e[2].lower() for e in keys[1:]):
+            continue
+        keys.append([A('k')] + k + rng.sample(defs, rng.choice([0, 1, 1, 2])))
+    return [A('fargs'), [A('strict'), b2a(rng.random() < 0.5)], [A('fullparse'), b2a(rng.random() < 0.25)],
+            [A('seeds'), recase_str(rng, stems[0])], routines, keys]
+
+
+REAL = {'twin': real_twin, 'dup': real_dup_req, 'fargs': real_fargs}
 
 
 def graph_sexp(r):
@@ -235,7 +375,8 @@ class C23(Prop):
     theorems = ['C23_config_recase_invariant', 'C23_recase_invariant', 'C23_populate_recase_invariant',
                 'C23_recase_invariant_norm', 'C23_order_recase_invariant', 'C23_folding_needed',
                 'C23_eq_hash_partial', 'C23_eq_hash_fixed', 'C23_set_mem_partial', 'C23_set_no_case_duplicates',
-                'C23_dup_keys', 'C23_dup_never_fails', 'C23_eq_hash_current', 'C23_tables']
+                'C23_dup_keys', 'C23_dup_never_fails', 'C23_eq_hash_current', 'C23_tables',
+                'C23_frontend_args_pattern', 'C23_frontend_args_recase']
     design_ref = 'DESIGN.md 4.D C23'
     level = 'proof'
     level_text = ('Theorems (Lean kernel; every project abstraction, configuration, seed list and every re-casing pi, i.e. any name map '
@@ -255,7 +396,12 @@ class C23(Prop):
                   '(Findings) is the witness. Tie to the code: metamorphic correspondence — the real Scheduler on generated projects '
                   'and on their case-permuted twins (graph in graph order with kinds, processing order of a probe transformation, '
                   'full_parse on/off), DuplicateKernel in PLAN mode with mixed-case suffix options, and real ProcedureItem objects '
-                  'under ==/hash/set/list, each compared with the Lean driver; the direct oracle is the twin comparison itself.')
+                  'under ==/hash/set/list, each compared with the Lean driver; the direct oracle is the twin comparison itself. '
+                  'frontend_args: C23_frontend_args_pattern / C23_frontend_args_recase — which per-file frontend_args entry applies '
+                  '(absolute-path and relative/pattern keys) depends on keys and path only through their lower-cased forms; tied to the '
+                  'code by generated projects with #ifdef/#ifndef-guarded calls and keys in assorted case (real graph vs the model '
+                  'built from create_frontend_args + preprocessing semantics; oracle: keys lower-cased give the same graph, and a '
+                  'reference closure).')
     level_note = ('Model = the C21 scheduler model (hand-written, see notes/C21.md for what it omits) plus topological order, item '
                   'identity over an arbitrary hash, and DuplicateKernel naming/cloning on an abstract cache. Source-level re-casing '
                   'is represented on the abstraction (recaseAbs); that the real factory folds every stored name (foldAbs) is checked '
@@ -268,14 +414,17 @@ class C23(Prop):
             'config string and seed is independently re-cased (upper, lower, capitalised, swapped, per-character random); '
             'DuplicateKernel cases: one kernel name (random case), suffix and module suffix from mixed-case pools; item cases: '
             'name pairs equal, equal up to case, or different; non-trivial = graph with more than one item / duplicate created / '
-            'names equal up to case; distinct by request line')
+            'names equal up to case; distinct by request line; frontend_args cases: 3-6 free routines in files with mixed-case names '
+            'and suffixes, guarded calls, 1-3 entries with absolute (directory as spelled or upper-cased), relative, sub-path, suffix and '
+            'pattern keys in assorted case')
     trusted_base = ['harness/props/c21.py export_abs (abstraction function over the real ItemFactory)',
                     'harness/props/c23.py recase_tree (twin construction)', 'Lean driver evaluation of model definitions']
     assumptions = ['ASCII names', 'assumptions of C21 (see notes/C21.md)', 'Python str hash has no collisions on the generated names',
                    'duplicate names do not clash with existing items']
     extra_obligations = ['oracle: twin run equals original run up to case (graph, kinds, processing order)',
                          'oracle: DuplicateKernel with lower-cased suffix options yields the same item names',
-                         'oracle: == of items implies equal hash and single set/dict entry']
+                         'oracle: == of items implies equal hash and single set/dict entry',
+                         'oracle: frontend_args keys in any letter case give the graph of the lower-cased keys and of the reference']
 
     def tables(self):
         """lower-casing points read from the sources with ast: every `item_name = …` of item_factory.py (is the value
@@ -345,6 +494,9 @@ class C23(Prop):
                 req = [A('dup'), [A('proj')] + proj[1:], [A('seeds')] + seeds, [A('kernel'), c21.spell(rng, k)],
                        [A('suffix'), suffix], [A('msuffix'), msuffix], absx]
                 yield Case(req, stream='dup')
+        nfa = {'quick': 24, 'thorough': 400, 'search': 120}.get(tier, 24)
+        for _ in range(nfa):
+            yield Case(gen_fargs(rng), stream='fargs')
         nitem = {'quick': 300, 'thorough': 3000, 'search': 1000}.get(tier, 300)
         for _ in range(nitem):
             a = c21.gen_match(rng)[1]
@@ -361,6 +513,11 @@ class C23(Prop):
         if op == 'item':
             a, b = ProcedureItem(str(req[1]), source=None), ProcedureItem(str(req[2]), source=None)
             return [A('ok'), a == b, hash(a) == hash(b), len({a, b}), a in {b}, a in [b]]
+        if op == 'fargs':
+            r = real_fargs(req)
+            if unmodelled(r):
+                r = isolated('fargs', req) or r
+            return graph_sexp(r)
         if op == 'dup':
             proj = field(req, 'proj')
             if dumps(export_abs(project_dir(proj))) != dumps(field(req, 'abs')):
@@ -401,6 +558,24 @@ class C23(Prop):
             if (a == b) != (str(req[1]).lower() == str(req[2]).lower()):
                 out.append(Failure(f'{a!r} == {b!r} is {a == b}'))
             return out
+        if op == 'fargs':
+            r = real_fargs(req)
+            rl = real_fargs(req, lowered=True)
+            if unmodelled(r) or unmodelled(rl) or norm_graph(r) != norm_graph(rl):
+                r = isolated('fargs', req) or r
+                rl = real_fargs(req, lowered=True)
+            keys = [k for k, _ in fa_keys(req, '<dir>')]
+            if norm_graph(r) != norm_graph(rl):
+                return [Failure(f'frontend_args keys {keys}: the graph differs from the one with the keys lower-cased: '
+                                f'{str(norm_graph(r))[:300]} vs {str(norm_graph(rl))[:300]}')]
+            nodes, edges = fa_reference(req)
+            if r[0] != 'ok':
+                return [Failure(f'frontend_args keys {keys}: scheduler raised {r[1]}')]
+            got_n, got_e = {n.lower() for n, _ in r[1]}, {(a.lower(), b.lower()) for a, b in r[2]}
+            if got_n != nodes or got_e != edges:
+                return [Failure(f'frontend_args keys {keys}: items/dependencies differ from the reference: missing '
+                                f'{sorted(nodes - got_n)} {sorted(edges - got_e)} extra {sorted(got_n - nodes)} {sorted(got_e - edges)}')]
+            return []
         if op == 'dup':
             r = dup_result(req)
             low = [A('dup')] + [([e[0], str(e[1]).lower()] if head(e) in ('suffix', 'msuffix', 'kernel') else e) for e in req[1:]]
